@@ -166,6 +166,10 @@ type Session struct {
 	// sequence writes this login secret (redacted) to a gate in front of the device, presses
 	// return, acquires the default level and sends a command
 	PlatLogin string   `json:"plat_login,omitempty"`
+	// GateByDialogue: no platform definition; the caller's own on-open hook answers the gate
+	// with an interactive dialogue whose first (and only) input is the hidden login secret,
+	// acquires the default level and sends the command
+	GateByDialogue bool `json:"gate_by_dialogue,omitempty"`
 	OnClose   []string `json:"on_close,omitempty"`
 	// Recover: after the first timed-out operation the device catches up (stall fault lifted).
 	Recover bool `json:"recover,omitempty"`
@@ -521,10 +525,18 @@ func buildSession(env *Env, sc *Session) (*SessionRun, error) {
 			opts = append(opts, options.WithOnClose(func(d *generic.Driver) error { return f(d.Channel) }))
 		}
 	} else {
-		if len(sc.OnOpen) > 0 || sc.OnOpenAcquire {
+		if len(sc.OnOpen) > 0 || sc.OnOpenAcquire || sc.GateByDialogue {
 			f := hook(sc.OnOpen)
-			acq := sc.OnOpenAcquire
+			acq := sc.OnOpenAcquire || sc.GateByDialogue
 			opts = append(opts, options.WithNetworkOnOpen(func(d *network.Driver) error {
+				if sc.GateByDialogue {
+					// the line is at the gate's password prompt already: the dialogue starts
+					// with the answer
+					ev := []*channel.SendInteractiveEvent{{ChannelInput: sc.PlatLogin, HideInput: true}}
+					if _, err := d.Channel.SendInteractive(ev); err != nil {
+						return err
+					}
+				}
 				if acq {
 					if err := d.AcquirePriv(d.DefaultDesiredPriv); err != nil {
 						return err
@@ -560,7 +572,7 @@ func buildSession(env *Env, sc *Session) (*SessionRun, error) {
 		if sc.Secondary != "" {
 			opts = append(opts, options.WithAuthSecondary(sc.Secondary))
 		}
-		if sc.PlatLogin != "" {
+		if sc.PlatLogin != "" && !sc.GateByDialogue {
 			// YAML is a superset of JSON: the definition is handed over as JSON text
 			levels := map[string]interface{}{}
 			for _, p := range sc.Privs {
